@@ -61,6 +61,9 @@ Qed.
 
 Ltac kp := intros; split; [reflexivity|repeat split].
 
+Lemma keep_drop_child s u w : keep s (drop_child s u w).
+Proof. unfold drop_child. destruct (lookup w (registry s)); [apply keep_refl|]. apply keep_upd_actor; kp. Qed.
+
 Lemma keep_push_sys s u e : keep s (push_sys s u e).
 Proof. unfold push_sys. apply keep_upd_actor. intros a. destruct (e_msg e); split; try reflexivity; repeat split. Qed.
 Lemma keep_deliver_sys s t snd m : keep s (deliver_sys s t snd m).
@@ -302,7 +305,7 @@ Proof.
     destruct (a_st a) eqn:Est; try (intros H; inversion H; subst; apply mono_refl); apply HT;
       (apply mono_trans with (s2 := upd_actor s u (w_st Terminating)); [eapply mono_upd_status; [exact Ea|congruence]|apply keep_mono, keep_deliver_sys]).
   - (* STerminatedOf *) apply (bind_rel mono); [apply mono_trans| |].
-    + intros s1 o1 p1 E. apply keep_mono. eapply keep_trans; [|eapply keep_handle; exact E]. apply keep_upd_actor; kp.
+    + intros s1 o1 p1 E. apply keep_mono. eapply keep_trans; [|eapply keep_handle; exact E]. apply keep_drop_child.
     + intros s1 s2 o2 p2. destruct (get s1 u) as [a2|]; [|intros H; inversion H; subst; apply mono_refl].
       destruct (a_st a2); try (intros H; inversion H; subst; apply mono_refl).
       * apply mono_try_restarted.
